@@ -1,5 +1,6 @@
 #!/bin/bash
-# tools/mirror_sync.sh -- refresh /tmp/verif2 from /verif after edits (see mirror.sh)
-rsync -a --exclude out --exclude 'harness/target' --exclude 'harness_f/target_*' --exclude .git --exclude try.sh --exclude 'tools/mirror*.sh' /verif/ /tmp/verif2/
-grep -rl '/repo' /tmp/verif2 --include='*.rs' --include='*.py' --include='*.toml' --include='*.sh' | grep -v 'try.sh\|tools/mirror' | xargs sed -i 's#/repo#/tmp/repo2#g'
-sed -i 's#/verif/out/cli_target#/tmp/verif2/out/cli_target#' /tmp/verif2/tools/setup.sh
+# tools/mirror_sync.sh [N] -- refresh /tmp/verifN from /verif after edits (see mirror.sh)
+N="${1:-2}"; R=/tmp/repo$N; V=/tmp/verif$N
+rsync -a --exclude out --exclude 'harness/target' --exclude 'harness_f/target_*' --exclude .git --exclude try.sh --exclude 'tools/mirror*.sh' /verif/ $V/
+grep -rl '/repo' $V --include='*.rs' --include='*.py' --include='*.toml' --include='*.sh' | grep -v 'try.sh\|tools/mirror' | xargs sed -i "s#/repo#$R#g"
+grep -rl '/verif/' $V --include='*.py' --include='*.sh' --include='*.toml' | grep -v 'try.sh\|tools/mirror' | xargs -r sed -i "s#/verif/#$V/#g"
